@@ -540,8 +540,16 @@ class NArray:
         if isinstance(item, S):
             # a write at a secret index recomputes every position by selection: rows become fresh arrays
             i = self._ix(item)
-            self.arr = [NArray(r) if isinstance(r, NArray) else r for r in self.arr]
-            self.arr[i] = NArray(value) if isinstance(value, NArray) else value
+            # (selection between an object and itself returns that very object - also mirrored here)
+            new = []
+            for j, r in enumerate(self.arr):
+                if value is r:
+                    new.append(r)
+                elif j == i:
+                    new.append(NArray(value) if isinstance(value, NArray) else value)
+                else:
+                    new.append(NArray(r) if isinstance(r, NArray) else r)
+            self.arr = new
             return
         self.arr[self._ix(item)] = value
 
